@@ -52,6 +52,7 @@ def strategy(tier: str) -> Any:
         'init': st.integers(0, 3),
         'done_garbage': st.booleans(),
         'pre': st.lists(st.integers(0, 11), max_size=2),
+        'pre_cmd': st.lists(st.integers(0, 3), min_size=2, max_size=2),
         'schedule': st.lists(act, min_size=2, max_size=30),
     })
 
@@ -103,7 +104,15 @@ def run_case(case: dict[str, Any]) -> CaseOut:
                 w.command(b'EXPUNGE')
             out.label('change-pending-at-idle-start')
         idlers = []
-        for c in pending:
+        for j, c in enumerate(pending):
+            # the idler's last command before IDLE may be a non-UID one: an
+            # expunge it had to hold back then must still arrive during IDLE
+            pc = (case.get('pre_cmd') or [0, 0])[j % 2]
+            if pc and c.shadow.view:
+                c.command([b'FETCH 1:* (FLAGS)', b'SEARCH ALL',
+                           b'STORE 1 +FLAGS (\\Seen)'][pc - 1],
+                          nonuid_data_cmd=True)
+                out.label('nonuid-command-right-before-idle')
             tag = c.next_tag()
             raw = c.raw_send(tag + b' IDLE\r\n')
             assert b'+ Idling.\r\n' in raw, raw
